@@ -73,6 +73,9 @@ func (p *Program) FindFunc(key string) *ssa.Function {
 		if at < 0 {
 			return nil
 		}
+		if fn, ok := p.Funcs[strings.TrimPrefix(v[:at], "func:")]; ok {
+			return fn // the entry holds a named function
+		}
 		pos := v[at+1:] // file:line
 		for _, fn := range p.Funcs {
 			if fn.Pos().IsValid() {
